@@ -56,6 +56,7 @@ func c02Menu(thorough bool) []enga.ABlock {
 		ev(enga.Event{Kind: "tx:hashes", N: 1}, enga.Event{Kind: "tx:replay", Var: "unchanged"}),
 		ev(enga.Event{Kind: "req:withdraw", N: 2}),
 		ev(enga.Event{Kind: "tx:process", N: 1}),
+		ev(enga.Event{Kind: "tx:process", N: 2, Var: "ids-permuted-after-the-vote"}),
 		ev(enga.Event{Kind: "req:removevoter"}),
 		ev(enga.Event{Kind: "tx:consolidation"}),
 		ev(enga.Event{Kind: "tx:consolidation", Var: "withhold"}), // a collected vote that is not submitted yet
@@ -228,6 +229,9 @@ func c02Explore(r *mc.Run, voters, depth int, menu []enga.ABlock, only []enga.AB
 				}
 				if (e.Kind == "tx:replay" || e.Kind == "tx:replay-consolidation") && ok {
 					viol("reused-vote-accepted:"+e.Var, fmt.Sprintf("a previously produced vote was accepted again (%s)", e.Var))
+				}
+				if e.Kind == "tx:process" && e.Var == "ids-permuted-after-the-vote" && ok {
+					viol("vote-for-another-payload-accepted:permuted-ids", "a vote collected for one order of the withdrawal ids was accepted for another order")
 				}
 				if e.Kind == "tx:newpubkey" && e.Var == "existing" && ok {
 					viol("existing-key-accepted", "NewPubkey with an already registered key succeeded")
